@@ -70,16 +70,16 @@ type Pending struct {
 }
 
 type Result struct {
-	Case    int         `json:"case"`
-	OK      bool        `json:"ok"`
-	Sig     string      `json:"sig,omitempty"`
-	Detail  string      `json:"detail,omitempty"`
-	Q       int         `json:"q,omitempty"`
-	Pending []Pending   `json:"pending,omitempty"`
-	Answers [][]int     `json:"answers,omitempty"` // search with echo: every answer as indices into the declared rules
-	Found   int         `json:"found,omitempty"` // search: number of requests answered with a chain
-	Steps   int         `json:"steps,omitempty"` // apply: hook processes run
-	Obs     interface{} `json:"obs,omitempty"`
+	Case     int         `json:"case"`
+	OK       bool        `json:"ok"`
+	Sig      string      `json:"sig,omitempty"`
+	Detail   string      `json:"detail,omitempty"`
+	Pending  []Pending   `json:"pending,omitempty"`
+	NotFound []int       `json:"notfound,omitempty"` // search: requests answered "no chain" although TLC says reachable
+	Answers  [][]int     `json:"answers,omitempty"`  // search with echo: every answer as indices into the declared rules
+	Found    int         `json:"found,omitempty"`    // search: number of requests answered with a chain
+	Steps    int         `json:"steps,omitempty"`    // apply: hook processes run
+	Obs      interface{} `json:"obs,omitempty"`
 }
 
 func readCases(path string) ([]Case, error) {
